@@ -424,7 +424,7 @@ Proof.
     destruct (ci <=? committed l) eqn:E1; [lia|].
     destruct (i =? u64_max) eqn:E2; [lia|].
     destruct (ci <? i + 1) eqn:E3; [lia|].
-    destruct (length ents <? N.to_nat (ci - (i + 1)))%nat eqn:E4; [lia|].
+    destruct (N.of_nat (length ents) <? ci - (i + 1)) eqn:E4; [lia|]. cbv zeta.
     rewrite Hsk.
     assert (Hce : contiguous_from (e_index e) (e :: r)).
     { rewrite <- Hsk, Hi.
